@@ -20,8 +20,20 @@ structure WMeta where
   held : Bool := false     -- last reported as pooled / limbo: counted by the census at session end
   localClosed : Bool := false
 
+/-- one stcp proxy of the visitor-listener part: its listener model + what the harness did to its accept loop -/
+structure VP where
+  st : VListen.St := {}
+  stalled : Bool := false   -- the accept goroutine sits between two Accept calls
+  mode : Nat := 0           -- 0: GetWorkConn fails (handler closes the visitor), 1: a work connection each time
+  pending : List Nat := []  -- accepted by NewConn, outcome not yet reported
+
 structure PoolState where
   maxPool : Int := 5
+  spec : List (String × (Int × Int)) := []   -- session ↦ (Login.PoolCount, MaxPoolCount)
+  vl : VListen.St := {}
+  vps : List (String × VP) := []
+  ga : GroupAccept.St := {}
+  gaMembers : List Nat := []
   sess : List (String × St) := []
   metas : List WMeta := []
   userSid : List (Nat × String) := []
@@ -59,30 +71,42 @@ def bridgedConn (s : St) (u : Nat) : Option Nat :=
   | some (.bridged c) => some c
   | _ => none
 
-/-- GetWorkConnFromPool for user u against the dead/alive knowledge of the client; result string -/
-def userLoop (ps : PoolState) (impl : String) (s : St) (u : Nat) : Nat → St × String
+/-- what the harness observed for a user connection: `B:w<c>:…`, `C:<n>` (closed by frps after its
+    handler consumed n pooled connections), `W`, anything else -/
+def closedAfter (impl : String) : Option Nat :=
+  match impl.splitOn ":" with
+  | ["C", n] => n.toNat?
+  | _ => none
+
+/-- GetWorkConnFromPool for user u.  A pooled connection the client still holds open takes the
+    StartWorkConn (`startMsg u true`).  For one the client has closed (stream closed / yamux session
+    gone) BOTH outcomes of the write exist in the real code — an error (close it, next round) or no
+    error (yamux half-close, or the dead session not yet noticed: "bridged", Join returns at once and
+    the deferred closes run) — so the label is read off the observation: `C:<n>` says that the n-th
+    connection consumed was the last one.  `n` = connections consumed so far. -/
+def userLoop (ps : PoolState) (impl : String) (s : St) (u : Nat) (n : Nat) : Nat → St × String
   | 0 => (s, "fuel")
   | fuel + 1 =>
     match s.u.get u with
     | some (.accepted _) =>
       match s.pool with
       | [] =>
-        if s.poolClosed then ((stepS s (.take u)).1, "C")
-        else if s.dispDone ∧ impl = "C" then
+        if s.poolClosed then ((stepS s (.take u)).1, s!"C:{n}")
+        else if s.dispDone ∧ (closedAfter impl).isSome then
           -- Send raced with the closed doneCh and lost (the select may pick either: read off the result)
-          ((stepS s (.request u false)).1, "C")
+          ((stepS s (.request u false)).1, s!"C:{n}")
         else ((stepS s (.request u true)).1, "W")
       | c :: _ =>
         let s1 := (stepS s (.take u)).1
         let dead := ((ps.meta? c).map (·.dead)).getD 0
         if dead = 0 then ((stepS s1 (.startMsg u true)).1, s!"B:w{c}:nstd")
-        else if dead = 1 then
-          -- the write succeeds (yamux half-close), Join sees EOF at once
-          (runS s1 [.startMsg u true, .joinEnd u], "C")
+        else if closedAfter impl = some (n + 1) then
+          -- the write "succeeded", Join saw EOF at once
+          (runS s1 [.startMsg u true, .joinEnd u], s!"C:{n + 1}")
         else
           let (s2, r) := stepS s1 (.startMsg u false)
-          if r = .retry then userLoop ps impl s2 u fuel else (s2, "C")
-    | _ => (s, "C")
+          if r = .retry then userLoop ps impl s2 u (n + 1) fuel else (s2, s!"C:{n + 1}")
+    | _ => (s, s!"C:{n}")
 
 /-- census of the harness after a session end: held work connections closed/open, waiting users closed/open -/
 def census (ps : PoolState) (sid : String) (s0 s : St) (waitersBefore : List Nat) : PoolState × String :=
@@ -124,8 +148,10 @@ def poolOp (ps : PoolState) (tok : List String) (impl : String) : Option (PoolSt
     let pc := clampPoolCount current.clampPoolCount (newPoolCount pool ps.maxPool)
     if newControlPanics pc then pure ({ ps with crashed := true }, "crash", some false)
     else
-      let s := init pc 1
-      pure (ps.setS sid s, s!"ok:{s.reqs}", some (C11.loginOk pool ps.maxPool impl))
+      -- Start(), then the NewProxy of the proxy the users dial
+      let s := (stepS (init pc 1) (.regProxy 0)).1
+      pure ({ ps.setS sid s with spec := (sid, (pool, ps.maxPool)) :: ps.spec }, s!"ok:{s.reqs}",
+            some (C11.loginOk pool ps.maxPool impl))
   | ["offer", sid, wid, mux, auth] => do
     let c ← idOf wid
     let s ← ps.getS sid
@@ -162,7 +188,7 @@ def poolOp (ps : PoolState) (tok : List String) (impl : String) : Option (PoolSt
       let (s1, r) := stepS s (.accept u)
       if r = .crash then pure ({ ps.setS sid s1 with crashed := true }, "crash", some false)
       else
-        let (s2, res) := userLoop ps impl s1 u 64
+        let (s2, res) := userLoop ps impl s1 u 0 64
         -- connections received by the handler are no longer "held in the pool" for the client
         let ps := { ps with metas := ps.metas.map (fun (m : WMeta) =>
           if m.sid = sid ∧ m.held ∧ s.w.get m.id = some W.pooled ∧ s2.w.get m.id ≠ some W.pooled
@@ -221,7 +247,23 @@ def poolOp (ps : PoolState) (tok : List String) (impl : String) : Option (PoolSt
     | none => pure (ps, "bad", none)
   | ["reqs", sid] => do
     let s ← ps.getS sid
-    pure (ps, toString s.reqs, none)
+    let (c, m) ← ps.spec.lookup sid
+    pure (ps, toString s.reqs, some (C11.reqsOk c m s.ureq impl))
+  | ["newproxy", sid, pid] => do
+    let p ← idOf pid
+    let s ← ps.getS sid
+    let (c, m) ← ps.spec.lookup sid
+    if s.dispDone then pure (ps, "nosess", none) else
+    match step current s (.regProxy p) with
+    | some (s', _) => pure (ps.setS sid s', s!"ok:{s'.reqs}", some (C11.reqsOk c m s'.ureq impl))
+    | none => pure (ps, s!"err:{s.reqs}", some (C11.reqsOk c m s.ureq impl))
+  | ["closeproxy", sid, pid] => do
+    let p ← idOf pid
+    let s ← ps.getS sid
+    let (c, m) ← ps.spec.lookup sid
+    if s.dispDone then pure (ps, "nosess", none) else
+    let s' := (stepS s (.closeProxy p)).1      -- an unknown name is ignored
+    pure (ps.setS sid s', s!"ok:{s'.reqs}", some (C11.reqsOk c m s'.ureq impl))
   | ["end", sid] => do
     let s ← ps.getS sid
     let ws := waitingOf s
@@ -280,6 +322,96 @@ def poolOp (ps : PoolState) (tok : List String) (impl : String) : Option (PoolSt
     let limbo := parked.filter (fun c => hs.c.get c = some .limbo)
     pure ({ ps with hs := hs, lsnDom := ps.lsnDom.filter (fun e => e.1 ≠ l) },
           s!"closed={renderIds closed};limbo={renderIds limbo}", some (C11.closeListenerOk impl))
+  | ["vlnew"] => pure ({ ps with vl := {} }, "-", none)
+  | ["vlput", cid] => do
+    let c ← idOf cid
+    match VListen.step ps.vl (.put c) with
+    | some (v, .queued) => pure ({ ps with vl := v }, "q", none)
+    | some (v, .full) => pure ({ ps with vl := v }, "full", none)
+    | some (v, _) => pure ({ ps with vl := v }, "err", none)
+    | none => none
+  | ["vlaccept"] =>
+    if ps.vl.loopExit then pure (ps, "noloop", none) else
+    match VListen.step ps.vl .accept with
+    | some (v, .got c) => pure ({ ps with vl := v }, s!"got:c{c}", some (C11.vlAcceptOk impl))
+    | some (v, _) => pure ({ ps with vl := v }, "exit:", some (C11.vlAcceptOk impl))
+    | none => pure ({ ps with vl := { ps.vl with loopExit := true } }, "block", none)
+  | ["vlclose"] => pure ({ ps with vl := ((VListen.step ps.vl .closeL).map (·.1)).getD ps.vl }, "-", none)
+  | ["vpreset"] => pure ({ ps with vps := [] }, "-", none)
+  | ["vpnew", p, mode] => do
+    let mode ← mode.toNat?
+    match ps.vps.lookup p with
+    | some vp => if vp.st.registered then pure (ps, "err", none)
+                 else pure ({ ps with vps := (p, { mode := mode }) :: ps.vps }, "ok", none)
+    | none => pure ({ ps with vps := (p, { mode := mode }) :: ps.vps }, "ok", none)
+  | ["vpconn", p, cid, stall, auth] => do
+    let c ← idOf cid
+    match ps.vps.lookup p with
+    | none => pure (ps, "err", none)
+    | some vp =>
+      if auth ≠ "1" then pure (ps, "err", none) else
+      match VListen.step vp.st (.put c) with
+      | none => none
+      | some (v, .queued) =>
+        if vp.stalled then
+          pure ({ ps with vps := (p, { vp with st := v, pending := vp.pending ++ [c] }) :: ps.vps }, "Q", some (C11.visitorOk impl))
+        else
+          -- the free accept goroutine takes it at once
+          let v := ((VListen.step v .accept).map (·.1)).getD v
+          if stall = "1" then
+            pure ({ ps with vps := (p, { vp with st := v, stalled := true, pending := [c] }) :: ps.vps }, "stalled", some (C11.visitorOk impl))
+          else
+            pure ({ ps with vps := (p, { vp with st := v }) :: ps.vps }, if vp.mode = 0 then "C" else "B:n", some (C11.visitorOk impl))
+      | some (v, .full) => pure ({ ps with vps := (p, { vp with st := v }) :: ps.vps }, "full", some (C11.visitorOk impl))
+      | some (v, _) => pure ({ ps with vps := (p, { vp with st := v }) :: ps.vps }, "err", some (C11.visitorOk impl))
+  | [op, p] =>
+    if op = "vprelease" ∨ op = "vpclose" then
+      match ps.vps.lookup p with
+      | none => pure (ps, "nopxy", none)
+      | some vp =>
+        if op = "vpclose" ∧ vp.st.registered = false then pure (ps, "nopxy", none) else
+        let accepts := fun (v : VListen.St) (n : Nat) =>
+          (List.replicate n VListen.Label.accept).foldl (fun v l => ((VListen.step v l).map (·.1)).getD v) v
+        let v := if op = "vpclose" then
+            let v := ((VListen.step vp.st .closeL).map (·.1)).getD vp.st
+            let v := ((VListen.step v .unregister).map (·.1)).getD v
+            accepts v (v.q.length + 1)
+          else accepts vp.st vp.st.q.length
+        -- every pending connection that the loop has accepted is with its handler: bridged or closed
+        let handled := vp.pending.filter (fun c => v.c.get c = some .accepted)
+        let openC := vp.pending.filter (fun c => v.c.get c = some .queued)
+        let b := if vp.mode = 0 then 0 else handled.length
+        let cl := if vp.mode = 0 then handled.length else 0
+        pure ({ ps with vps := (p, { vp with st := v, stalled := false, pending := [] }) :: ps.vps },
+              s!"b={b};c={cl};open={renderIds openC}", some (C11.openNoneOk impl))
+    else if op = "gplisten" then do
+      let m ← idOf p
+      if ps.gaMembers.contains m then pure (ps, "err", none)
+      else pure ({ ps with ga := (GroupAccept.step ps.ga .listen).getD ps.ga, gaMembers := m :: ps.gaMembers }, "ok", none)
+    else if op = "gpconn" then do
+      let c ← idOf p
+      let refused := ps.ga.members = 0
+      let g := (GroupAccept.step ps.ga (.conn c)).getD ps.ga
+      let g := (GroupAccept.step g .workerAccept).getD g      -- the worker is eager
+      pure ({ ps with ga := g }, if refused then "refused" else "ok", none)
+    else if op = "gpaccept" then do
+      let m ← idOf p
+      if !ps.gaMembers.contains m then pure (ps, "nolsn", none) else
+      match ps.ga.hold with
+      | some c =>
+        let g := (GroupAccept.step ps.ga .recv).getD ps.ga
+        let g := (GroupAccept.step g .workerAccept).getD g
+        pure ({ ps with ga := g }, s!"got:c{c}", some (impl.startsWith "got:"))
+      | none => pure (ps, "none", none)
+    else if op = "gpclose" then do
+      let m ← idOf p
+      if !ps.gaMembers.contains m then pure (ps, "nolsn", none) else
+      let g := (GroupAccept.step ps.ga .leave).getD ps.ga
+      let stuck := ((g.c.l.map (·.1)).eraseDups).filter (fun c => g.members = 0 ∧
+        (g.c.get c = some .backlog ∨ g.c.get c = some .held))
+      pure ({ ps with ga := g, gaMembers := ps.gaMembers.erase m }, s!"open={renderIds stuck}", some (C11.openNoneOk impl))
+    else none
+  | ["gpreset"] => pure ({ ps with ga := {}, gaMembers := [] }, "-", none)
   | _ => none
 
 /-- inner ops of a sacrificial child: results joined by `;`, ending with `crash` where frps died -/
